@@ -557,3 +557,48 @@ func init() {
 		return bigSet(args[0], term.IntConst(new(big.Int).Exp(conc(fr, args[1]), conc(fr, args[2]), m)))
 	})
 }
+
+// signature model for the harness validator keys
+var zzSignerAddrs = []string{
+	"0x1a642f0E3c3aF545E7AcBD38b07251B3990914F1",
+	"0x5050A4F4b3f9338C3472dcC01A87C76A144b3c9c",
+	"0x3325a78425F17a7E487Eb5666b2bFd93aBb06c70",
+	"0xc48B812bB43401392c037381AcA934F4069C0517",
+	"0xd09Ad14080d4b257a819a4f579b8485Be88f086c",
+}
+
+func init() {
+	const zz = "github.com/meshplus/bitxhub/internal/zzverif."
+	reg(zz+"SignerAddr", func(fr *frame, args []value) value { return zzSignerAddrs[args[0].(int)] })
+	reg(zz+"SignDigest", func(fr *frame, args []value) value {
+		i := args[0].(int)
+		out := append([]value{}, strToBytes("zzsig")...)
+		out = append(out, uint8(i))
+		return append(out, args[1].([]value)...)
+	})
+	// recoverSignAddress(sig, digest): the signer's address for a harness signature over
+	// exactly this digest; an unrelated address for a signature over another digest; an error
+	// for bytes that are no harness signature.
+	reg("github.com/meshplus/bitxhub/pkg/proof.recoverSignAddress", func(fr *frame, args []value) value {
+		sig, dig := args[0].([]value), args[1].([]value)
+		pre, ok := concBytes(sig[:minInt(len(sig), 6)])
+		if !ok || len(sig) < 6 || string(pre[:5]) != "zzsig" {
+			return tuple{(*value)(nil), errorValue(fr, "recover public key failed: invalid signature")}
+		}
+		i := int(pre[5])
+		same := strEqTerm(fr, bytesToStr(sig[6:]), bytesToStr(dig))
+		addr := "0x00000000000000000000000000000000DeaDBeef"
+		if fr.decide(same) && i < len(zzSignerAddrs) {
+			addr = zzSignerAddrs[i]
+		}
+		f := fr.i.prog.ImportedPackage("github.com/meshplus/bitxhub-kit/types").Func("NewAddressByStr")
+		return tuple{call(fr.i, fr, token.NoPos, f, []value{addr}), nilError()}
+	})
+}
+
+func minInt(a, b int) int {
+	if a < b {
+		return a
+	}
+	return b
+}
